@@ -104,7 +104,8 @@ def run(ctx):
                     hit = ("cmp", "==", ("f", "mod", (its, every), ()))
                     others = [q for q in parts if q != hit]
                     # the remaining conjuncts may only guard the option itself (set / positive), never the iteration
-                    ok = hit in parts and all(not any(s_ == its for s_ in T.subterms(q)) and any(s_ == every for s_ in T.subterms(q)) for q in others)
+                    allowed = (negate(("is", every, T.NONE)), every, ("cmp", ">", every), ("cmp", ">=", T.sub(every, T.ONE)))
+                    ok = hit in parts and all(q in allowed for q in others)
                     # guards must come before the modulo (None % n / n % 0 would raise)
                     ok = ok and (parts.index(hit) == len(parts) - 1 or not others)
             ctx.decide(ok, "C12.cad", mc.ident, loc_of(mc, cb[0].node),
@@ -114,6 +115,24 @@ def run(ctx):
             okp = st is not None and st[0] == "f" and "build_checkpoint_state" in st[1] and {T.atom("samples"), T.atom("iterations"), T.atom("beta")} <= set(st[2]) | {v for _, v in st[3]}
             ctx.decide(okp, "C12.cad", mc.ident, loc_of(mc, cb[0].node), "the payload handed to the callback is built from the current samples, iteration and temperature",
                        f"the callback receives {T.show(st)[:160] if st else None}", disc="payload")
+
+    # default wiring of the callback and the cadence
+    from .smcloop import fold_sample
+    sfd = fold_sample(repo, resumed=False, final=False)
+    if sfd.loop is not None:
+        pre = sfd.loop["pre"]
+        cbv, evv = pre.get("checkpoint_callback"), pre.get("checkpoint_every")
+        cbk_, every_ = T.atom("checkpoint_callback"), T.atom("checkpoint_every")
+        want_c = mk_and([("is", cbk_, T.NONE), negate(("is", every_, T.NONE))])
+        okd = cbv is not None and cbv[0] == "phi" and cbv[1] == want_c and T.select(cbv, want_c, False) == cbk_ \
+            and T.select(cbv, want_c, True)[0] == "f" and "default_file_checkpoint_callback" in T.select(cbv, want_c, True)[1] \
+            and T.atom("checkpoint_file_path") in T.select(cbv, want_c, True)[2]
+        ctx.decide(okd, "C12.default", sample.ident, loc_of(sample), "a cadence without a callback installs the default file callback for the given path; a given callback is kept",
+                   f"the checkpoint callback in force is {T.show(cbv)[:200] if cbv else None}", disc="callback")
+        oke = evv is not None and evv[0] == "phi" and T.select(evv, evv[1], True) == T.ONE and T.select(evv, evv[1], False) == every_ \
+            and any(s_ == ("is", every_, T.NONE) for s_ in T.subterms(evv[1]))
+        ctx.decide(oke, "C12.default", sample.ident, loc_of(sample), "a callback without a cadence checkpoints every iteration; a given cadence is kept",
+                   f"the cadence in force is {T.show(evv)[:200] if evv else None}", disc="every")
 
     # ------------------------------------------------ the blob writer
     dp = repo.func("aspire.utils:dump_pickle_to_hdf")
@@ -298,6 +317,11 @@ MUTANTS = [
     M("config and flow written after sampling only", _A, "if checkpoint_path is not None:\n            # Check if sampler supports checkpointing", "if False:\n            # Check if sampler supports checkpointing", "C12.before"),
     M("file handle kept open", _SB, "with AspireFile(file_path, \"a\") as h5_file:\n                self.save_checkpoint_to_hdf(\n                    state, h5_file, path=\"checkpoint\", dsetname=\"state\"\n                )",
       "self._h5 = AspireFile(file_path, \"a\")\n            self.save_checkpoint_to_hdf(\n                self._h5 and state, self._h5, path=\"checkpoint\", dsetname=\"state\"\n            )", "C12.close"),
+]
+MUTANTS += [
+    M("cadence guard inverted", _B, "and checkpoint_every > 0\n", "and checkpoint_every <= 0\n", "C12.cad"),
+    M("given callback replaced by the default", _B, "if checkpoint_callback is None and checkpoint_every is not None:", "if checkpoint_every is not None:", "C12.default"),
+    M("default cadence is every second iteration", _B, "checkpoint_every = 1\n", "checkpoint_every = 2\n", "C12.default"),
 ]
 NEUTRALS = [
     M("cadence guard written as >= 1", _B, "and checkpoint_every > 0\n", "and checkpoint_every >= 1\n"),
